@@ -71,4 +71,14 @@ Record links_ok (T : table D) (S : list dna) : Prop := {
   lo_closed : forall ent d b, In ent T -> (b < 4)%N -> e_has_ext (e_exts D ent) (dirb d) b = true ->
     In (canon_k st (extend (e_key D ent) b d)) (keys D T);
   lo_src : forall w, In w S -> exists ent d b, In ent T /\ (b < 4)%N /\ w = cn st (lk (e_key D ent) d b) }.
+(* the same without closure and without the source clause: what holds of a table whose recorded extensions may lead to
+   absent k-mers (count-filtered tables, shard tables), w.r.t. a link set that may be larger than the table's own *)
+Record links_loose (T : table D) (S : list dna) : Prop := {
+  ll_np : forall ent d b, In ent T -> (b < 4)%N -> kpal st (e_key D ent) = false ->
+    (e_has_ext (e_exts D ent) (dirb d) b = true <-> In (cn st (lk (e_key D ent) d b)) S);
+  ll_pal : forall ent d b, In ent T -> (b < 4)%N -> kpal st (e_key D ent) = true ->
+    (e_has_ext (e_exts D ent) (dirb d) b = true \/ e_has_ext (e_exts D ent) (dirb (dflip d)) (comp b) = true
+     <-> In (cn st (lk (e_key D ent) d b)) S) }.
+Lemma links_ok_loose T S : links_ok T S -> links_loose T S.
+Proof. intros [H1 H2 _ _]. constructor; assumption. Qed.
 End LinksOk.
